@@ -105,7 +105,7 @@ func (s *FcSrv) call(req map[string]any) srvResp {
 	var r rd
 	select {
 	case r = <-ch:
-	case <-time.After(20 * time.Second):
+	case <-time.After(90 * time.Second):
 		s.cmd.Process.Kill()
 		r = <-ch
 		r.err = fmt.Errorf("timeout")
